@@ -14,6 +14,18 @@ Local Open Scope N_scope.
    from the same initial (key-stream offset, MAC state) returns exactly the
    messages, leaves the rest of the stream untouched, and ends in the writer's
    final state — reader and writer are in lockstep after every frame. *)
+(* Lifetime of delivered data.  read_n returns a LIST OF VALUES: once message i is in
+   the list nothing the session does later (reading frames i+1.., reusing buffers)
+   can change it — in Gallina this needs no theorem, values are immutable.  The
+   implementation hands out a reader over memory it owns (Msg.Payload), slices of
+   its read buffer (discovery) and reads the caller's buffer (WriteMsg); that these
+   behave like values is therefore part of the model/implementation tie, and it is
+   what the correspondence "ReadMsg session, deferred consumption ~ read_n" checks:
+   the implementation's consumers read their payloads only AFTER later ReadMsg
+   calls (all reads first, reverse order, lagging, partially, or discarding), the
+   writer scribbles over its payload buffer after every WriteMsg, and what the
+   consumers eventually see is compared with read_n's output for the whole session
+   and with what was written (harness/cmd/c17/lifetime.go). *)
 Theorem C17_frame_roundtrip :
   forall (H aes_block : bytes -> bytes) (ks : N -> byte)
          (snappy_enc : bytes -> bytes) (snappy_dec : bytes -> option bytes),
